@@ -5,7 +5,7 @@
    unroll() emits it unchanged.  For every such program, of any length and nesting depth.
    (The well-formedness predicate is decidable and is evaluated by ./check C03 on every real output.) *)
 From Coq Require Import ZArith List Bool String Lia.
-From Verif Require Import Aexp BGate PyVal CastPrim Ast State Arr GatesGen GateLib Unroll.
+From Verif Require Import Aexp BGate PyVal CastPrim Ast State Arr GatesGen GateLib Unroll Depth DepthModel.
 Import ListNotations.
 Open Scope string_scope.
 Open Scope list_scope.
@@ -22,13 +22,15 @@ Definition HasC (s : st) (b : bitref) : Prop := bget b (cdepth s) <> None.
 Record DE (s s' : st) : Prop := {
   de_core : nodepth s' = nodepth s;
   de_q : forall b, HasQ s b -> HasQ s' b;
-  de_c : forall b, HasC s b -> HasC s' b
+  de_c : forall b, HasC s b -> HasC s' b;
+  de_q' : forall b, HasQ s' b -> HasQ s b;      (* no node is created either *)
+  de_c' : forall b, HasC s' b -> HasC s b
 }.
 
 Lemma DE_refl s : DE s s.
 Proof. split; auto. Qed.
 Lemma DE_trans a b c : DE a b -> DE b c -> DE a c.
-Proof. intros [e1 q1 c1] [e2 q2 c2]. split; [congruence|auto|auto]. Qed.
+Proof. intros [e1 q1 c1 q1' c1'] [e2 q2 c2 q2' c2']. split; [congruence|auto|auto|auto|auto]. Qed.
 
 Lemma nodepth_fields s :
   qreg_sizes (nodepth s) = qreg_sizes s /\ creg_sizes (nodepth s) = creg_sizes s /\
@@ -44,14 +46,7 @@ Ltac core_eq H s s' :=
   destruct F as (F1 & F2 & F3 & F4 & F5 & F6 & F7 & F8 & F9 & F10 & F11 & F12 & F13);
   destruct G as (G1 & G2 & G3 & G4 & G5 & G6 & G7 & G8 & G9 & G10 & G11 & G12 & G13).
 
-Lemma bget_bset_same {V} b (v : V) l : bget b (bset b v l) = Some v.
-Proof.
-  unfold bget, bset. induction l as [|[k w] l IH]; cbn.
-  - unfold bitref_eqb. now rewrite String.eqb_refl, Z.eqb_refl.
-  - destruct (bitref_eqb b k) eqn:E; cbn; [|rewrite E; exact IH].
-    unfold bitref_eqb. now rewrite String.eqb_refl, Z.eqb_refl.
-Qed.
-Lemma bget_bset_other {V} b b' (v : V) l : bget b' l <> None -> bget b' (bset b v l) <> None.
+Lemma bget_bset_kept {V} b b' (v : V) l : bget b' l <> None -> bget b' (bset b v l) <> None.
 Proof.
   unfold bget, bset. induction l as [|[k w] l IH]; cbn; [congruence|].
   destruct (bitref_eqb b k) eqn:E; cbn.
@@ -64,15 +59,22 @@ Proof.
   - destruct (bitref_eqb b' k); [congruence|auto].
 Qed.
 
-Lemma set_qnode_DE b n s : DE s (with_qdepth s (bset b n (qdepth s))).
+Lemma bget_bset_inv {V} b b' (v : V) l : bget b' (bset b v l) <> None -> b' = b \/ bget b' l <> None.
 Proof.
-  split; [destruct s; reflexivity| |intros b' H; destruct s; exact H].
-  intros b' H. unfold HasQ in *. destruct s; cbn in *. now apply bget_bset_other.
+  destruct (bitref_eqb_spec b' b) as [->|N]; [now left|]. right. now rewrite bget_bset_other in H.
 Qed.
-Lemma set_cnode_DE b n s : DE s (with_cdepth s (bset b n (cdepth s))).
+
+Lemma set_qnode_DE b n s : HasQ s b -> DE s (with_qdepth s (bset b n (qdepth s))).
 Proof.
-  split; [destruct s; reflexivity|intros b' H; destruct s; exact H|].
-  intros b' H. unfold HasC in *. destruct s; cbn in *. now apply bget_bset_other.
+  intros Hb. split; [destruct s; reflexivity| |intros b' H; destruct s; exact H| |intros b' H; destruct s; exact H].
+  - intros b' H. unfold HasQ in *. destruct s; cbn in *. now apply bget_bset_kept.
+  - intros b' H. unfold HasQ in *. destruct s; cbn in *. apply bget_bset_inv in H as [->|H]; assumption.
+Qed.
+Lemma set_cnode_DE b n s : HasC s b -> DE s (with_cdepth s (bset b n (cdepth s))).
+Proof.
+  intros Hb. split; [destruct s; reflexivity|intros b' H; destruct s; exact H| |intros b' H; destruct s; exact H|].
+  - intros b' H. unfold HasC in *. destruct s; cbn in *. now apply bget_bset_kept.
+  - intros b' H. unfold HasC in *. destruct s; cbn in *. apply bget_bset_inv in H as [->|H]; assumption.
 Qed.
 
 (* ---------- computations that succeed and touch the depth bookkeeping only ---------- *)
@@ -104,7 +106,7 @@ Proof.
   destruct (get_qnode_ok b s (H b (or_introl eq_refl))) as (n & En).
   apply OKDE_bind; [exists n, s; split; [exact En|apply DE_refl]|].
   intros a s1 E _. rewrite En in E. inversion E; subst a s1; clear E.
-  apply OKDE_bind; [eexists tt, _; split; [reflexivity|apply set_qnode_DE]|].
+  apply OKDE_bind; [eexists tt, _; split; [reflexivity|apply set_qnode_DE; apply H; now left]|].
   intros [] s2 E D. apply IH. intros b' Hb'. apply (de_q _ _ D). apply H. now right.
 Qed.
 
@@ -116,7 +118,7 @@ Proof.
   apply OKDE_bind.
   - apply OKDE_bind; [exists n, s; split; [exact En|apply DE_refl]|].
     intros a s1 E _. rewrite En in E. inversion E; subst a s1.
-    eexists tt, _; split; [reflexivity|apply set_qnode_DE].
+    eexists tt, _; split; [reflexivity|apply set_qnode_DE; apply H; now left].
   - intros [] s2 E D. apply IH. intros b' Hb'. apply (de_q _ _ D). apply H. now right.
 Qed.
 
@@ -135,8 +137,8 @@ Proof.
   intros a s1 E _. rewrite En in E. inversion E; subst a s1; clear E.
   apply OKDE_bind; [exists m, s; split; [exact Em|apply DE_refl]|].
   intros a s1 E _. rewrite Em in E. inversion E; subst a s1; clear E.
-  apply OKDE_bind; [eexists tt, _; split; [reflexivity|apply set_qnode_DE]|].
-  intros [] s2 _ _. eexists tt, _; split; [reflexivity|apply set_cnode_DE].
+  apply OKDE_bind; [eexists tt, _; split; [reflexivity|apply set_qnode_DE; exact Hq]|].
+  intros [] s2 _ D. eexists tt, _; split; [reflexivity|apply set_cnode_DE; apply (de_c _ _ D); exact Hc].
 Qed.
 
 (* ---------- the registers a flat program has declared so far ---------- *)
@@ -179,6 +181,72 @@ Proof.
          | match ?x with _ => _ end = Some _ => destruct x; try discriminate H
          end.
   inversion H; reflexivity.
+Qed.
+
+(* operands: literal, inside their registers, pairwise distinct *)
+Fixpoint distinctb (acc l : list bitref) : bool :=
+  match l with
+  | [] => true
+  | b :: l' => negb (existsb (bitref_eqb b) acc) && distinctb (acc ++ [b]) l'
+  end.
+
+(* ---------- the events of a flat program, and the depth bookkeeping as the recurrence over them ---------- *)
+Lemma lit_bit_of b : lit_bit (qarg_of b) = Some b.
+Proof. destruct b; reflexivity. Qed.
+Lemma mapM_lit_bit_of bs : mapM lit_bit (map qarg_of bs) = Some bs.
+Proof. induction bs as [|b bs IH]; [reflexivity|]. cbn [map mapM]. now rewrite lit_bit_of, IH. Qed.
+
+Fixpoint ev_of (stm : stmt) : list (list rsrc) :=
+  let fl := fix go (l : list stmt) : list (list rsrc) := match l with [] => [] | x :: l' => ev_of x ++ go l' end in
+  match stm with
+  | SGate _ _ _ qs => match mapM lit_bit qs with Some bs => [map Qr bs] | None => [] end
+  | SMeasure q (Some t) => match lit_bit q, lit_bit t with Some a, Some b => [[Qr a; Br b]] | _, _ => [] end
+  | SReset q => match lit_bit q with Some a => [[Qr a]] | None => [] end
+  | SBarrier [q] => match lit_bit q with Some a => [[Qr a]] | None => [] end
+  | SIf _ t e => fl t ++ fl e
+  | _ => []
+  end.
+Definition evs_of (l : list stmt) : list (list rsrc) := flat_map ev_of l.
+Lemma ev_of_block (l : list stmt) :
+  (fix go (l : list stmt) : list (list rsrc) := match l with [] => [] | x :: l' => ev_of x ++ go l' end) l = evs_of l.
+Proof. induction l as [|x l IH]; [reflexivity|]. unfold evs_of in *. cbn [flat_map]. now rewrite IH. Qed.
+
+Definition run_evs (d : dmap (R := rsrc)) (evs : list (list rsrc)) : dmap (R := rsrc) := fold_left (dstep rsrc_eqb) evs d.
+
+Lemma dstep_ext (d d' : dmap (R := rsrc)) ev : (forall r, d r = d' r) -> forall r, dstep rsrc_eqb d ev r = dstep rsrc_eqb d' ev r.
+Proof. intros H r. unfold dstep. rewrite (map_ext _ _ H), (H r). reflexivity. Qed.
+Lemma run_evs_ext evs : forall d d', (forall r, d r = d' r) -> forall r, run_evs d evs r = run_evs d' evs r.
+Proof. unfold run_evs. induction evs as [|ev evs IH]; intros d d' H r; cbn [fold_left]; [apply H|]. apply IH. now apply dstep_ext. Qed.
+Lemma run_evs_app d a b : run_evs d (a ++ b) = run_evs (run_evs d a) b.
+Proof. unfold run_evs. apply fold_left_app. Qed.
+Lemma run_evs_nonneg evs : forall d, (forall r, 0 <= d r) -> forall r, 0 <= run_evs d evs r.
+Proof. unfold run_evs. induction evs as [|ev evs IH]; intros d H r; cbn [fold_left]; [apply H|]. apply IH. now apply dstep_nonneg. Qed.
+
+(* the depth counters after the computation are those before it advanced by the events *)
+Definition Dstep (s s' : st) (evs : list (list rsrc)) : Prop :=
+  nonneg s -> forall r, dof s' r = run_evs (dof s) evs r.
+
+Lemma Dstep_nonneg s s' evs : Dstep s s' evs -> nonneg s -> nonneg s'.
+Proof. intros H N r. rewrite (H N r). now apply run_evs_nonneg. Qed.
+Lemma Dstep_same s s' : (forall r, dof s' r = dof s r) -> Dstep s s' [].
+Proof. intros H _ r. apply H. Qed.
+Lemma Dstep_trans a b c e1 e2 : Dstep a b e1 -> Dstep b c e2 -> Dstep a c (e1 ++ e2).
+Proof.
+  intros H1 H2 N r. rewrite run_evs_app. rewrite (H2 (Dstep_nonneg _ _ _ H1 N) r). apply run_evs_ext. intros r'. now apply H1.
+Qed.
+Lemma Dstep_one s s' ev : (nonneg s -> forall r, dof s' r = dstep rsrc_eqb (dof s) ev r) -> Dstep s s' [ev].
+Proof. intros H N r. exact (H N r). Qed.
+
+Lemma distinctb_NoDup l : forall acc, distinctb acc l = true -> NoDup l /\ forall x, In x l -> ~ In x acc.
+Proof.
+  induction l as [|b l IH]; intros acc H; [split; [constructor|intros x []]|].
+  cbn [distinctb] in H. apply andb_true_iff in H as [Hn H]. apply negb_true_iff in Hn.
+  destruct (IH _ H) as [Nd Hd]. split.
+  - constructor; [|exact Nd]. intros Hin. apply (Hd b Hin). apply in_or_app. right. now left.
+  - intros x [<-|Hx] Hacc.
+    + assert (existsb (bitref_eqb b) acc = true); [|congruence]. apply existsb_exists. exists b. split; [exact Hacc|].
+      destruct (bitref_eqb_spec b b); congruence.
+    + apply (Hd x Hx). apply in_or_app. now left.
 Qed.
 
 (* ---------- the gates the operation tables lower to themselves ---------- *)
@@ -254,12 +322,6 @@ Proof.
 Qed.
 
 
-(* operands: literal, inside their registers, pairwise distinct *)
-Fixpoint distinctb (acc l : list bitref) : bool :=
-  match l with
-  | [] => true
-  | b :: l' => negb (existsb (bitref_eqb b) acc) && distinctb (acc ++ [b]) l'
-  end.
 
 Section Gob.
 Variables (size_map : list (string * Z)) (is_q : bool).
@@ -300,7 +362,7 @@ Proof. intros R Hin Hd. rewrite get_op_bits_gob. now rewrite (literal_operands e
 
 (* ---------- reset, barrier, measurement ---------- *)
 Definition emits (stm : stmt) (m : M (list stmt)) (s : st) : Prop :=
-  exists s', m s = Ok ((if check_only then [] else [stm]), s') /\ DE s s'.
+  exists s', m s = Ok ((if check_only then [] else [stm]), s') /\ DE s s' /\ Dstep s s' (ev_of stm).
 
 Lemma in_some_function_false env s : Regs env s -> in_some_function s = false.
 Proof. intros R. unfold in_some_function. now rewrite (R_fn _ _ R). Qed.
@@ -328,7 +390,11 @@ Proof.
   rewrite Hb in G. rewrite (bind_eq _ _ s [b] s (G eq_refl eq_refl)).
   destruct (iter_nodes_ok reset_upd [b] s) as ([] & s1 & E1 & D1).
   { intros b' [<-|[]]. eapply HasQ_of; eauto. }
-  unfold depth_reset. rewrite (bind_eq _ _ s tt s1 E1). exists s1. split; [reflexivity|exact D1].
+  unfold depth_reset. rewrite (bind_eq _ _ s tt s1 E1). exists s1. split; [reflexivity|]. split; [exact D1|].
+  cbn [ev_of]. rewrite lit_bit_of. apply Dstep_one. intros N. apply reset1_is_dstep; [exact N|].
+  cbn [iterM] in E1. unfold upd1. unfold bindM in E1 |- *.
+  destruct (get_qnode b s) as [[qn sq]|]; [|discriminate E1]. destruct (set_qnode b (reset_upd qn) sq) as [[[] sr]|]; [|discriminate E1].
+  unfold ret in E1. exact E1.
 Qed.
 
 Lemma barrier_fix env s b : Regs env s -> in_reg (e_q env) b = true ->
@@ -341,7 +407,9 @@ Proof.
   rewrite Hb in G. rewrite (bind_eq _ _ s [b] s (G eq_refl eq_refl)).
   destruct (depth_two_pass_ok barrier_upd [b] s) as ([] & s1 & E1 & D1).
   { intros b' [<-|[]]. eapply HasQ_of; eauto. }
-  unfold depth_barrier. rewrite (bind_eq _ _ s tt s1 E1). exists s1. split; [reflexivity|exact D1].
+  unfold depth_barrier. rewrite (bind_eq _ _ s tt s1 E1). exists s1. split; [reflexivity|]. split; [exact D1|].
+  cbn [ev_of]. rewrite lit_bit_of. apply Dstep_one. intros N.
+  apply (barrier_is_dstep [b] s s1); [constructor; [intros []|constructor]|exact N|exact E1].
 Qed.
 
 Lemma smemk_of {V} x (m : list (string * V)) v : sget x m = Some v -> smemk x m = true.
@@ -365,7 +433,8 @@ Proof.
   cbn [List.length Nat.eqb guard combine]. rewrite (bind_eq _ _ s tt s eq_refl).
   destruct (depth_measure_pair_ok q c s) as ([] & s1 & E1 & D1); [eapply HasQ_of; eauto|eapply HasC_of; eauto|].
   cbn [iterM]. rewrite (bind_eq _ _ s tt s1); [|rewrite (bind_eq _ _ s tt s1 E1); reflexivity].
-  exists s1. split; [reflexivity|exact D1].
+  exists s1. split; [reflexivity|]. split; [exact D1|].
+  cbn [ev_of]. rewrite !lit_bit_of. apply Dstep_one. intros N. now apply measure_pair_is_dstep.
 Qed.
 
 
@@ -406,7 +475,8 @@ Proof.
   change (Z.to_nat 1) with 1%nat. cbn [repeatM].
   (* one application: not external, not custom, the library gate *)
   assert (Hbasic : exists s1, visit_basic_gate check_only call_rec name (map ELit vs) (map qarg_of bs) false s
-                              = Ok ((if check_only then [] else [SGate [] name (map ELit vs) (map qarg_of bs)]), s1) /\ DE s s1).
+                              = Ok ((if check_only then [] else [SGate [] name (map ELit vs) (map qarg_of bs)]), s1) /\ DE s s1 /\
+                              Dstep s s1 [map Qr bs]).
   { unfold visit_basic_gate. cbn [negb]. rewrite Hl.
     rewrite (bind_eq _ _ s (Some (d, np', f), k, false) s eq_refl).
     assert (Hp : (match map ELit vs with
@@ -430,13 +500,15 @@ Proof.
     { intros b Hbn. eapply HasQ_of; eauto. eapply forallb_forall in Hin; eauto. }
     unfold update_depth_for_gate. cbn [iterM]. unfold depth_gate_subset.
     rewrite (bind_eq _ _ s tt s1); [|rewrite (bind_eq _ _ s tt s1 E1); reflexivity].
-    exists s1. split; [reflexivity|exact D1]. }
-  destruct Hbasic as (s1 & Eb & D1).
+    exists s1. split; [reflexivity|]. split; [exact D1|]. apply Dstep_one. intros N.
+    apply (gate_subset_is_dstep bs s s1); [exact (proj1 (distinctb_NoDup bs [] Hd))|exact N|exact E1]. }
+  destruct Hbasic as (s1 & Eb & D1 & S1).
   rewrite (bind_eq _ _ s (if check_only then [] else [SGate [] name (map ELit vs) (map qarg_of bs)]) s1).
   2:{ rewrite (bind_eq _ _ s (if check_only then [] else [SGate [] name (map ELit vs) (map qarg_of bs)]) s1).
       - rewrite (bind_eq _ _ s1 [] s1 eq_refl). unfold ret. now rewrite app_nil_r.
       - rewrite (bind_eq _ _ s s s eq_refl). cbn [smem existsb]. rewrite (R_gates _ _ R). exact Eb. }
-  exists s1. split; [unfold emit, ret; destruct check_only; reflexivity|exact D1].
+  exists s1. split; [unfold emit, ret; destruct check_only; reflexivity|]. split; [exact D1|].
+  cbn [ev_of]. now rewrite mapM_lit_bit_of.
 Qed.
 
 
@@ -454,23 +526,26 @@ Qed.
 
 Lemma DE_popped s s3 : DE (pushed s) s3 -> DE s (popped s3).
 Proof.
-  intros [E Dq Dc]. split.
+  intros [E Dq Dc Dq' Dc']. split.
   - transitivity (popped (nodepth s3)); [destruct s3; reflexivity|]. rewrite E. destruct s; reflexivity.
   - intros b H. assert (HasQ (pushed s) b) as H' by (destruct s; exact H). apply Dq in H'. destruct s3; exact H'.
   - intros b H. assert (HasC (pushed s) b) as H' by (destruct s; exact H). apply Dc in H'. destruct s3; exact H'.
+  - intros b H. assert (HasQ s3 b) as H' by (destruct s3; exact H). apply Dq' in H'. destruct s; exact H'.
+  - intros b H. assert (HasC s3 b) as H' by (destruct s3; exact H). apply Dc' in H'. destruct s; exact H'.
 Qed.
 
 Lemma block_fix env l : forall s,
   (forall stm s0, In stm l -> Regs env s0 -> emits stm (visit_rec stm) s0) ->
   Regs env s ->
-  exists s', visit_block visit_rec l s = Ok ((if check_only then [] else l), s') /\ DE s s'.
+  exists s', visit_block visit_rec l s = Ok ((if check_only then [] else l), s') /\ DE s s' /\ Dstep s s' (evs_of l).
 Proof.
   unfold visit_block. induction l as [|x l IH]; intros s H R; cbn [concatMM].
-  - exists s. split; [destruct check_only; reflexivity|apply DE_refl].
-  - destruct (H x s (or_introl eq_refl) R) as (s1 & E1 & D1).
-    destruct (IH s1) as (s2 & E2 & D2); [intros; apply H; [now right|assumption]|eapply Regs_DE; eauto|].
+  - exists s. split; [destruct check_only; reflexivity|]. split; [apply DE_refl|apply Dstep_same; reflexivity].
+  - destruct (H x s (or_introl eq_refl) R) as (s1 & E1 & D1 & S1).
+    destruct (IH s1) as (s2 & E2 & D2 & S2); [intros; apply H; [now right|assumption]|eapply Regs_DE; eauto|].
     rewrite (bind_eq _ _ s _ s1 E1). rewrite (bind_eq _ _ s1 _ s2 E2).
-    exists s2. split; [unfold ret; destruct check_only; reflexivity|eapply DE_trans; eauto].
+    exists s2. split; [unfold ret; destruct check_only; reflexivity|]. split; [eapply DE_trans; eauto|].
+    unfold evs_of. cbn [flat_map]. eapply Dstep_trans; eauto.
 Qed.
 
 Definition cond_ok (env : renv) (lhs : expr) (rhs : pyval) : bool :=
@@ -494,12 +569,17 @@ Proof.
   (* both arms are visited in the block scope *)
   assert (Hblocks : forall s1, Regs env s1 ->
             exists s2 s3, visit_block visit_rec t s1 = Ok ((if check_only then [] else t), s2) /\
-                          visit_block visit_rec e s2 = Ok ((if check_only then [] else e), s3) /\ DE s1 s3).
+                          visit_block visit_rec e s2 = Ok ((if check_only then [] else e), s3) /\ DE s1 s3 /\
+                          Dstep s1 s3 (evs_of t ++ evs_of e)).
   { intros s1 R1.
-    destruct (block_fix env t s1) as (s2 & E2 & D2); [intros; apply H; [apply in_or_app; now left|assumption]|exact R1|].
-    destruct (block_fix env e s2) as (s3 & E3 & D3); [intros; apply H; [apply in_or_app; now right|assumption]|eapply Regs_DE; eauto|].
-    exists s2, s3. split; [exact E2|split; [exact E3|eapply DE_trans; eauto]]. }
-  destruct (Hblocks (pushed s) Rp) as (s2 & s3 & E2 & E3 & D3).
+    destruct (block_fix env t s1) as (s2 & E2 & D2 & S2); [intros; apply H; [apply in_or_app; now left|assumption]|exact R1|].
+    destruct (block_fix env e s2) as (s3 & E3 & D3 & S3); [intros; apply H; [apply in_or_app; now right|assumption]|eapply Regs_DE; eauto|].
+    exists s2, s3. split; [exact E2|split; [exact E3|split; [eapply DE_trans; eauto|eapply Dstep_trans; eauto]]]. }
+  destruct (Hblocks (pushed s) Rp) as (s2 & s3 & E2 & E3 & D3 & S3).
+  assert (Spop : Dstep s (popped s3) (ev_of (SIf (EBin "==" lhs (ELit rhs)) t e))).
+  { cbn [ev_of]. rewrite !ev_of_block. intros N r.
+    assert (Np : nonneg (pushed s)) by (intros r'; specialize (N r'); destruct s; exact N).
+    transitivity (dof s3 r); [destruct s3; reflexivity|]. rewrite (S3 Np r). apply run_evs_ext. intros r'. destruct s; reflexivity. }
   unfold cond_ok in Hc.
   destruct lhs as [| | |c|coll idx| | | | | |]; try discriminate Hc.
   - (* whole register == integer *)
@@ -510,7 +590,7 @@ Proof.
     rewrite (bind_eq _ _ (pushed s) true (pushed s) eq_refl).
     rewrite (bind_eq _ _ (pushed s) [SIf (EBin "==" (EId c) (ELit (VInt z))) (if check_only then [] else t) (if check_only then [] else e)] s3).
     + rewrite (bind_eq _ _ s3 tt (popped s3) eq_refl). exists (popped s3).
-      split; [unfold emit, ret; destruct check_only; reflexivity|now apply DE_popped].
+      split; [unfold emit, ret; destruct check_only; reflexivity|split; [now apply DE_popped|exact Spop]].
     + rewrite (bind_eq _ _ (pushed s) (None, c, VInt z) (pushed s) eq_refl).
       rewrite (bind_eq _ _ (pushed s) (pushed s) (pushed s) eq_refl). rewrite Ec.
       rewrite (bind_eq _ _ (pushed s) None (pushed s) eq_refl).
@@ -531,7 +611,7 @@ Proof.
     rewrite (bind_eq _ _ (pushed s) [SIf (EBin "==" (EIndexE (EId c) (IdxList [IExpr (ELit (VInt i))])) (ELit (VBool b)))
                                          (if check_only then [] else t) (if check_only then [] else e)] s3).
     + rewrite (bind_eq _ _ s3 tt (popped s3) eq_refl). exists (popped s3).
-      split; [unfold emit, ret; destruct check_only; reflexivity|now apply DE_popped].
+      split; [unfold emit, ret; destruct check_only; reflexivity|split; [now apply DE_popped|exact Spop]].
     + rewrite (bind_eq _ _ (pushed s) (Some (VInt i), c, VBool b) (pushed s)) by (destruct b; reflexivity).
       rewrite (bind_eq _ _ (pushed s) (pushed s) (pushed s) eq_refl). rewrite Ec.
       rewrite (bind_eq _ _ (pushed s) (Some i) (pushed s)).
@@ -623,7 +703,7 @@ Proof.
     eapply gate_fix; eauto.
   - (* gphase *)
     cbn [op_ok] in Hok. destruct mods; [|discriminate Hok]. destruct arg; try discriminate Hok.
-    destruct qubits; [|discriminate Hok]. exists s. split; [now apply phase_fix|apply DE_refl].
+    destruct qubits; [|discriminate Hok]. exists s. split; [now apply phase_fix|]. split; [apply DE_refl|apply Dstep_same; reflexivity].
   - (* measure *)
     cbn [op_ok] in Hok. destruct target as [t|]; [|discriminate Hok].
     destruct (lit_bit q) as [a|] eqn:Ea; [|discriminate Hok]. destruct (lit_bit t) as [b|] eqn:Eb; [|discriminate Hok].
@@ -669,13 +749,17 @@ Record Top (env : renv) (s : st) : Prop := {
   T_sc : exists g, scopes s = [g] /\ forall x, sget x g = None <-> (sget x (e_q env) = None /\ sget x (e_c env) = None);
   T_ctx : ctxs s = [CGlobal];
   T_lv : exists lv, label_levels s = [lv];
-  T_inc : included s = e_inc env
+  T_inc : included s = e_inc env;
+  T_kq : forall x i, sget x (e_q env) = None -> ~ HasQ s (x, i);     (* depth nodes exist for declared registers only *)
+  T_kc : forall x i, sget x (e_c env) = None -> ~ HasC s (x, i)
 }.
 
 Lemma Top_DE env s s' : Top env s -> DE s s' -> Top env s'.
 Proof.
-  intros [R Sc Cx Lv In] D. pose proof (de_core _ _ D) as E. core_eq E s s'.
-  split; [eapply Regs_DE; eauto|rewrite <- G6, F6; exact Sc|congruence|rewrite <- G5, F5; exact Lv|congruence].
+  intros [R Sc Cx Lv In Kq Kc] D. pose proof (de_core _ _ D) as E. core_eq E s s'.
+  split; [eapply Regs_DE; eauto|rewrite <- G6, F6; exact Sc|congruence|rewrite <- G5, F5; exact Lv|congruence| |].
+  - intros x i Hx H. apply (Kq x i Hx). now apply (de_q' _ _ D).
+  - intros x i Hx H. apply (Kc x i Hx). now apply (de_c' _ _ D).
 Qed.
 
 Definition fresh_name (env : renv) (x : string) : bool :=
@@ -683,7 +767,7 @@ Definition fresh_name (env : renv) (x : string) : bool :=
 
 Lemma check_in_scope_fresh env s x : Top env s -> fresh_name env x = true -> check_in_scope s x = false.
 Proof.
-  intros [R (g & Sc & Hg) Cx Lv In] F. unfold fresh_name in F.
+  intros [R (g & Sc & Hg) Cx Lv In _ _] F. unfold fresh_name in F.
   destruct (sget x (e_q env)) eqn:Eq; [discriminate|]. destruct (sget x (e_c env)) eqn:Ec; [discriminate|].
   unfold check_in_scope, get_visible, in_global, nscopes, top_ctx, global_scope. rewrite Sc, Cx. cbn.
   now rewrite (proj2 (Hg x) (conj Eq Ec)).
@@ -707,13 +791,64 @@ Proof.
   induction l as [|i l IH]; intros d b H; cbn [fold_left].
   - destruct H as [H|(i & [] & _)]. exact H.
   - apply IH. destruct H as [H|(j & [<-|Hj] & ->)].
-    + left. now apply bget_bset_other.
+    + left. now apply bget_bset_kept.
     + left. rewrite bget_bset_same. discriminate.
     + right. eauto.
 Qed.
 Lemma in_range_nat n i : 0 <= i < n -> In i (range_nat n).
 Proof.
   intros H. unfold range_nat. apply in_map_iff. exists (Z.to_nat i). split; [lia|]. apply in_seq. lia.
+Qed.
+
+Lemma fold_nodes_other {V} (name : string) (z0 : V) l : forall d b,
+  (forall j, In j l -> b <> (name, j)) -> bget b (fold_left (fun d i => bset (name, i) z0 d) l d) = bget b d.
+Proof.
+  induction l as [|i l IH]; intros d b H; cbn [fold_left]; [reflexivity|].
+  rewrite IH by (intros j Hj; apply H; now right). apply bget_bset_other. apply H. now left.
+Qed.
+Lemma fold_nodes_keep {V} (name : string) (z0 : V) l : forall d b, bget b d = Some z0 ->
+  bget b (fold_left (fun d i => bset (name, i) z0 d) l d) = Some z0.
+Proof.
+  induction l as [|i l IH]; intros d b H; cbn [fold_left]; [exact H|]. apply IH.
+  destruct (bitref_eqb_spec b (name, i)) as [->|N]; [apply bget_bset_same|now rewrite bget_bset_other].
+Qed.
+Lemma fold_nodes_new {V} (name : string) (z0 : V) l : forall d i, In i l ->
+  bget (name, i) (fold_left (fun d i => bset (name, i) z0 d) l d) = Some z0.
+Proof.
+  induction l as [|j l IH]; intros d i Hin; [destruct Hin|]. destruct Hin as [<-|H]; cbn [fold_left]; [apply fold_nodes_keep, bget_bset_same|now apply IH].
+Qed.
+Lemma fold_nodes_inv {V} (name : string) (z0 : V) l : forall d b,
+  bget b (fold_left (fun d i => bset (name, i) z0 d) l d) <> None -> bget b d <> None \/ exists i, In i l /\ b = (name, i).
+Proof.
+  induction l as [|i l IH]; intros d b H; cbn [fold_left] in H; [now left|].
+  apply IH in H as [H|(j & Hj & ->)]; [|right; exists j; split; [now right|reflexivity]].
+  apply bget_bset_inv in H as [->|H]; [right; exists i; split; [now left|reflexivity]|now left].
+Qed.
+
+(* a register declaration leaves every depth counter as it was (the new nodes start at 0, where an absent node counts) *)
+Lemma fold_nodes_dof_q name l d0 (b : bitref) :
+  (forall i, In i l -> bget (name, i) d0 = None) ->
+  match bget b (fold_left (fun d i => bset (name, i) qnode0 d) l d0) with Some n => qd n | None => 0 end
+  = match bget b d0 with Some n => qd n | None => 0 end.
+Proof.
+  intros H. destruct b as [x i].
+  destruct (String.eqb_spec x name) as [->|Nx].
+  - destruct (in_dec Z.eq_dec i l) as [Hi|Hi].
+    + rewrite (fold_nodes_new name qnode0 l d0 i Hi), (H i Hi). reflexivity.
+    + rewrite fold_nodes_other; [reflexivity|]. intros j Hj E. inversion E; subst. contradiction.
+  - rewrite fold_nodes_other; [reflexivity|]. intros j Hj E. inversion E; subst. contradiction.
+Qed.
+Lemma fold_nodes_dof_c name l d0 (b : bitref) :
+  (forall i, In i l -> bget (name, i) d0 = None) ->
+  match bget b (fold_left (fun d i => bset (name, i) cnode0 d) l d0) with Some n => cd n | None => 0 end
+  = match bget b d0 with Some n => cd n | None => 0 end.
+Proof.
+  intros H. destruct b as [x i].
+  destruct (String.eqb_spec x name) as [->|Nx].
+  - destruct (in_dec Z.eq_dec i l) as [Hi|Hi].
+    + rewrite (fold_nodes_new name cnode0 l d0 i Hi), (H i Hi). reflexivity.
+    + rewrite fold_nodes_other; [reflexivity|]. intros j Hj E. inversion E; subst. contradiction.
+  - rewrite fold_nodes_other; [reflexivity|]. intros j Hj E. inversion E; subst. contradiction.
 Qed.
 
 Section Top.
@@ -724,13 +859,14 @@ Definition out_of (l : list stmt) : list stmt := if check_only then [] else l.
 
 Lemma include_fix env s f fuel : Top env s -> smem f (e_inc env) = false ->
   exists s', vst (S fuel) (SInclude f) s = Ok (out_of [SInclude f], s') /\
-             Top (mkEnv (e_q env) (e_c env) (f :: e_inc env)) s' /\ num_qubits s' = num_qubits s /\ num_clbits s' = num_clbits s.
+             Top (mkEnv (e_q env) (e_c env) (f :: e_inc env)) s' /\ num_qubits s' = num_qubits s /\ num_clbits s' = num_clbits s /\
+             (forall r, dof s' r = dof s r).
 Proof.
   intros T Hf. cbn [visit_stmt visit_stmt_body]. rewrite (bind_eq _ _ s s s eq_refl).
   rewrite (T_inc _ _ T), Hf. cbn [negb guard]. rewrite (bind_eq _ _ s tt s eq_refl).
   rewrite (bind_eq _ _ s tt (with_included s (f :: included s)) eq_refl).
-  eexists. split; [reflexivity|]. split; [|destruct s; split; reflexivity]. destruct T as [[Rq Rc Rg Rf Lq Lc Hq Hc] Sc Cx Lv In].
-  split; [split| | | |]; cbn [e_q e_c e_inc]; try (destruct s; cbn in *; assumption).
+  eexists. split; [reflexivity|]. split; [|destruct s; repeat split; reflexivity]. destruct T as [[Rq Rc Rg Rf Lq Lc Hq Hc] Sc Cx Lv In Kq Kc].
+  split; [split| | | | | |]; cbn [e_q e_c e_inc]; try (destruct s; cbn in *; assumption).
   destruct s; cbn in *. congruence.
 Qed.
 
@@ -738,7 +874,7 @@ Lemma qubit_decl_fix env s name n fuel :
   Top env s -> fresh_name env name = true -> 1 <= n < 100000 ->
   exists s', vst (S fuel) (SQubitDecl name (Some (ELit (VInt n)))) s = Ok (out_of [SQubitDecl name (Some (ELit (VInt n)))], s') /\
              Top (mkEnv (sset name n (e_q env)) (e_c env) (e_inc env)) s' /\
-             num_qubits s' = num_qubits s + n /\ num_clbits s' = num_clbits s.
+             num_qubits s' = num_qubits s + n /\ num_clbits s' = num_clbits s /\ (forall r, dof s' r = dof s r).
 Proof.
   intros T F Hn. cbn [visit_stmt visit_stmt_body]. unfold visit_qubit_decl.
   rewrite (bind_eq _ _ s n s eq_refl). rewrite (bind_eq _ _ s s s eq_refl).
@@ -749,7 +885,7 @@ Proof.
   rewrite Hc. cbn [negb guard]. rewrite (bind_eq _ _ s tt s eq_refl).
   assert (n <? 100000 = true) as -> by (apply Z.ltb_lt; lia). cbn [guard]. rewrite (bind_eq _ _ s tt s eq_refl).
   rewrite (bind_eq _ _ s s s eq_refl).
-  destruct T as [R (g & Sc & Hg) Cx (lv & Lv) In].
+  destruct T as [R (g & Sc & Hg) Cx (lv & Lv) In Kq Kc].
   assert (Fq : sget name (e_q env) = None /\ sget name (e_c env) = None).
   { unfold fresh_name in F. destruct (sget name (e_q env)); [discriminate|]. destruct (sget name (e_c env)); [discriminate|]. auto. }
   assert (Hg0 : sget name g = None) by (apply Hg; exact Fq).
@@ -759,11 +895,18 @@ Proof.
   rewrite Ha. cbn [putres]. rewrite (bind_eq _ _ s tt (with_scopes s [g ++ [(name, v)]]) eq_refl).
   match goal with |- exists s', (modify ?F;;; _) _ = _ /\ _ => rewrite (bind_eq _ _ _ tt (F (with_scopes s [g ++ [(name, v)]])) eq_refl) end.
   eexists. split; [reflexivity|].
-  split; [|destruct s; cbn in *; unfold level_add; cbn; rewrite Lv; split; reflexivity].
+  split; [|split; [destruct s; cbn in *; unfold level_add; cbn; rewrite Lv; reflexivity|]; split; [destruct s; cbn in *; unfold level_add; cbn; rewrite Lv; reflexivity|];
+           intros [[|] b]; unfold dof; cbn [fst snd]; [|destruct s; cbn in *; unfold level_add; cbn; rewrite Lv; reflexivity];
+           unfold qdof;
+           match goal with |- match bget b (qdepth ?S) with _ => _ end = _ =>
+             assert (Q0 : qdepth S = fold_left (fun d i => bset (name, i) qnode0 d) (range_nat n) (qdepth s))
+               by (destruct s; cbn in *; unfold level_add; cbn; rewrite Lv; reflexivity) end;
+           rewrite Q0; apply fold_nodes_dof_q; intros i _;
+           destruct (bget (name, i) (qdepth s)) eqn:Eb; [exfalso; apply (Kq name i (proj1 Fq)); unfold HasQ; congruence|reflexivity]].
   destruct R as [Rq Rc Rg Rf Lq Lc Hq Hc'].
   set (s1 := with_scopes s [g ++ [(name, v)]]).
   assert (Lv1 : label_levels s1 = [lv]) by (destruct s; exact Lv).
-  split; [split| | | |]; cbn [e_q e_c e_inc].
+  split; [split| | | | | |]; cbn [e_q e_c e_inc].
   - destruct s; cbn in *. unfold level_add; cbn. rewrite Lv. cbn. congruence.
   - destruct s; cbn in *. unfold level_add; cbn. rewrite Lv. cbn. exact Rc.
   - destruct s; cbn in *. unfold level_add; cbn. rewrite Lv. cbn. exact Rg.
@@ -800,6 +943,13 @@ Proof.
   - destruct s; cbn in *. unfold level_add; cbn. rewrite Lv. exact Cx.
   - exists (name :: lv). destruct s; cbn in *. unfold level_add; cbn. rewrite Lv. reflexivity.
   - destruct s; cbn in *. unfold level_add; cbn. rewrite Lv. exact In.
+  - intros x i Hx H. destruct (String.eqb_spec x name) as [->|Nx]; [rewrite sget_sset_eq in Hx; discriminate|].
+    rewrite sget_sset_neq in Hx by exact Nx. apply (Kq x i Hx). unfold HasQ in *.
+    match type of H with bget _ (qdepth ?S) <> None =>
+      assert (Q0 : qdepth S = fold_left (fun d i => bset (name, i) qnode0 d) (range_nat n) (qdepth s))
+        by (destruct s; cbn in *; unfold level_add; cbn; rewrite Lv; reflexivity) end.
+    rewrite Q0 in H. apply fold_nodes_inv in H as [H|(j & _ & E)]; [exact H|inversion E; congruence].
+  - intros x i Hx H. apply (Kc x i Hx). unfold HasC in *. destruct s; cbn in *. unfold level_add in H; cbn in H. rewrite Lv in H. exact H.
 Qed.
 
 
@@ -811,7 +961,7 @@ Lemma bit_decl_fix env s name n init fuel :
   exists s', vst (S fuel) (SClassicalDecl (TBit (Some (ELit (VInt n)))) name init) s
              = Ok (out_of [SClassicalDecl (TBit (Some (ELit (VInt n)))) name init], s') /\
              Top (mkEnv (e_q env) (sset name n (e_c env)) (e_inc env)) s' /\
-             num_qubits s' = num_qubits s /\ num_clbits s' = num_clbits s + n.
+             num_qubits s' = num_qubits s /\ num_clbits s' = num_clbits s + n /\ (forall r, dof s' r = dof s r).
 Proof.
   intros T F Hn Hi. cbn [visit_stmt visit_stmt_body]. unfold visit_classical_decl.
   assert (Hc : is_constant_name name = false).
@@ -837,7 +987,7 @@ Proof.
       [exists (VVScalar (VBool (negb (z =? 0))))|exists (VVScalar (VBool b))]; reflexivity. }
   destruct Hinit as (val & Ev). rewrite (bind_eq _ _ s (val, [], init) s Ev).
   rewrite (bind_eq _ _ s s s eq_refl).
-  destruct T as [R (g & Sc & Hg) Cx (lv & Lv) In].
+  destruct T as [R (g & Sc & Hg) Cx (lv & Lv) In Kq Kc].
   assert (Fq : sget name (e_q env) = None /\ sget name (e_c env) = None).
   { unfold fresh_name in F. destruct (sget name (e_q env)); [discriminate|]. destruct (sget name (e_c env)); [discriminate|]. auto. }
   assert (Hg0 : sget name g = None) by (apply Hg; exact Fq).
@@ -848,10 +998,17 @@ Proof.
   assert (n <? 100000 = true) as -> by (apply Z.ltb_lt; lia). cbn [guard]. rewrite (bind_eq _ _ _ tt _ eq_refl).
   match goal with |- exists s', (modify ?F;;; _) _ = _ /\ _ => rewrite (bind_eq _ _ _ tt (F (with_scopes s [g ++ [(name, v)]])) eq_refl) end.
   eexists. split; [reflexivity|].
-  split; [|destruct s; cbn in *; unfold level_add; cbn; rewrite Lv; split; reflexivity].
+  split; [|split; [destruct s; cbn in *; unfold level_add; cbn; rewrite Lv; reflexivity|]; split; [destruct s; cbn in *; unfold level_add; cbn; rewrite Lv; reflexivity|];
+           intros [[|] b]; unfold dof; cbn [fst snd]; [destruct s; cbn in *; unfold level_add; cbn; rewrite Lv; reflexivity|];
+           unfold cdof;
+           match goal with |- match bget b (cdepth ?S) with _ => _ end = _ =>
+             assert (Q0 : cdepth S = fold_left (fun d i => bset (name, i) cnode0 d) (range_nat n) (cdepth s))
+               by (destruct s; cbn in *; unfold level_add; cbn; rewrite Lv; reflexivity) end;
+           rewrite Q0; apply fold_nodes_dof_c; intros i _;
+           destruct (bget (name, i) (cdepth s)) eqn:Eb; [exfalso; apply (Kc name i (proj2 Fq)); unfold HasC; congruence|reflexivity]].
   destruct R as [Rq Rc Rg Rf Lq Lc Hq Hc'].
   set (s1 := with_scopes s [g ++ [(name, v)]]).
-  split; [split| | | |]; cbn [e_q e_c e_inc].
+  split; [split| | | | | |]; cbn [e_q e_c e_inc].
   - destruct s; cbn in *. unfold level_add; cbn. rewrite Lv. cbn. exact Rq.
   - destruct s; cbn in *. unfold level_add; cbn. rewrite Lv. cbn. congruence.
   - destruct s; cbn in *. unfold level_add; cbn. rewrite Lv. cbn. exact Rg.
@@ -883,6 +1040,13 @@ Proof.
   - destruct s; cbn in *. unfold level_add; cbn. rewrite Lv. exact Cx.
   - exists (name :: lv). destruct s; cbn in *. unfold level_add; cbn. rewrite Lv. reflexivity.
   - destruct s; cbn in *. unfold level_add; cbn. rewrite Lv. exact In.
+  - intros x i Hx H. apply (Kq x i Hx). unfold HasQ in *. destruct s; cbn in *. unfold level_add in H; cbn in H. rewrite Lv in H. exact H.
+  - intros x i Hx H. destruct (String.eqb_spec x name) as [->|Nx]; [rewrite sget_sset_eq in Hx; discriminate|].
+    rewrite sget_sset_neq in Hx by exact Nx. apply (Kc x i Hx). unfold HasC in *.
+    match type of H with bget _ (cdepth ?S) <> None =>
+      assert (Q0 : cdepth S = fold_left (fun d i => bset (name, i) cnode0 d) (range_nat n) (cdepth s))
+        by (destruct s; cbn in *; unfold level_add; cbn; rewrite Lv; reflexivity) end.
+    rewrite Q0 in H. apply fold_nodes_inv in H as [H|(j & _ & E)]; [exact H|inversion E; congruence].
 Qed.
 
 End Top.
@@ -911,11 +1075,13 @@ Definition env0 : renv := mkEnv [] [] [].
 
 Lemma Top_init : Top env0 init_st.
 Proof.
-  split; [split; try reflexivity; cbn; intros; discriminate| | | |]; cbn.
+  split; [split; try reflexivity; cbn; intros; discriminate| | | | | |]; cbn.
   - exists []. split; [reflexivity|]. intros x. split; auto.
   - reflexivity.
   - exists []. reflexivity.
   - reflexivity.
+  - intros x i _ H. apply H. reflexivity.
+  - intros x i _ H. apply H. reflexivity.
 Qed.
 
 Definition decl_q (stm : stmt) : Z := match stm with SQubitDecl _ (Some (ELit (VInt n))) => n | _ => 0 end.
@@ -929,29 +1095,31 @@ Proof. destruct stm; cbn [op_ok]; try discriminate; intros _; split; reflexivity
 Lemma top_fix check_only fuel stm env env' s :
   (sdepth stm < fuel)%nat -> Top env s -> top_step env stm = Some env' ->
   exists s', visit_stmt check_only [] fuel stm s = Ok ((if check_only then [] else [stm]), s') /\ Top env' s' /\
-             num_qubits s' = num_qubits s + decl_q stm /\ num_clbits s' = num_clbits s + decl_c stm.
+             num_qubits s' = num_qubits s + decl_q stm /\ num_clbits s' = num_clbits s + decl_c stm /\
+             Dstep s s' (ev_of stm).
 Proof.
   intros Hf T Hs. destruct fuel as [|f]; [lia|].
   assert (Hop : forall e, top_step env stm = (if op_ok env stm then Some env else None) -> e = env' ->
                  exists s', visit_stmt check_only [] (S f) stm s = Ok ((if check_only then [] else [stm]), s') /\ Top env' s' /\
-                            num_qubits s' = num_qubits s + decl_q stm /\ num_clbits s' = num_clbits s + decl_c stm).
+                            num_qubits s' = num_qubits s + decl_q stm /\ num_clbits s' = num_clbits s + decl_c stm /\
+                            Dstep s s' (ev_of stm)).
   { intros e Ht _. rewrite Ht in Hs. destruct (op_ok env stm) eqn:Ho; [|discriminate]. inversion Hs; subst env'.
-    destruct (op_fix check_only (S f) stm env s Hf (T_regs _ _ T) Ho) as (s' & E & D).
+    destruct (op_fix check_only (S f) stm env s Hf (T_regs _ _ T) Ho) as (s' & E & D & Sd).
     destruct (op_ok_no_decl env stm Ho) as [-> ->]. destruct (DE_counts s s' D) as [Nq Nc].
-    exists s'. split; [exact E|]. split; [eapply Top_DE; eauto|]. split; lia. }
+    exists s'. split; [exact E|]. split; [eapply Top_DE; eauto|]. split; [lia|]. split; [lia|exact Sd]. }
   destruct stm; try (apply (Hop env' eq_refl eq_refl)).
   - (* include *)
     cbn [top_step] in Hs. destruct (smem file (e_inc env)) eqn:Ef; [discriminate|]. inversion Hs; subst env'.
-    destruct (include_fix check_only env s file f T Ef) as (s' & E & T' & Nq & Nc).
-    exists s'. cbn [decl_q decl_c]. split; [exact E|]. split; [exact T'|]. split; lia.
+    destruct (include_fix check_only env s file f T Ef) as (s' & E & T' & Nq & Nc & Hd).
+    exists s'. cbn [decl_q decl_c ev_of]. split; [exact E|]. split; [exact T'|]. split; [lia|]. split; [lia|now apply Dstep_same].
   - (* qubit register *)
     cbn [top_step] in Hs. destruct size as [e|]; [|apply (Hop env' eq_refl eq_refl)].
     destruct e; try (apply (Hop env' eq_refl eq_refl)). destruct v; try (apply (Hop env' eq_refl eq_refl)).
     destruct (fresh_name env name && (1 <=? z) && (z <? 100000)) eqn:Ec; [|discriminate]. inversion Hs; subst env'.
     apply andb_true_iff in Ec as [Ec H2]. apply andb_true_iff in Ec as [H0 H1].
     apply Z.leb_le in H1. apply Z.ltb_lt in H2.
-    destruct (qubit_decl_fix check_only env s name z f T H0 (conj H1 H2)) as (s' & E & T' & Nq & Nc).
-    exists s'. cbn [decl_q decl_c]. split; [exact E|]. split; [exact T'|]. split; lia.
+    destruct (qubit_decl_fix check_only env s name z f T H0 (conj H1 H2)) as (s' & E & T' & Nq & Nc & Hd).
+    exists s'. cbn [decl_q decl_c ev_of]. split; [exact E|]. split; [exact T'|]. split; [lia|]. split; [lia|now apply Dstep_same].
   - (* bit register *)
     cbn [top_step] in Hs. destruct t; try (apply (Hop env' eq_refl eq_refl)).
     destruct size as [e|]; [|apply (Hop env' eq_refl eq_refl)].
@@ -959,23 +1127,25 @@ Proof.
     destruct (fresh_name env name && (1 <=? z) && (z <? 100000) && bit_init_ok init) eqn:Ec; [|discriminate]. inversion Hs; subst env'.
     apply andb_true_iff in Ec as [Ec H3]. apply andb_true_iff in Ec as [Ec H2]. apply andb_true_iff in Ec as [H0 H1].
     apply Z.leb_le in H1. apply Z.ltb_lt in H2.
-    destruct (bit_decl_fix check_only env s name z init f T H0 (conj H1 H2) H3) as (s' & E & T' & Nq & Nc).
-    exists s'. cbn [decl_q decl_c]. split; [exact E|]. split; [exact T'|]. split; lia.
+    destruct (bit_decl_fix check_only env s name z init f T H0 (conj H1 H2) H3) as (s' & E & T' & Nq & Nc & Hd).
+    exists s'. cbn [decl_q decl_c ev_of]. split; [exact E|]. split; [exact T'|]. split; [lia|]. split; [lia|now apply Dstep_same].
 Qed.
 
 Lemma program_fix check_only fuel l : forall env s,
   (ldepth l < fuel)%nat -> Top env s -> wf_flat env l = true ->
   exists s', concatMM (visit_stmt check_only [] fuel) l s = Ok ((if check_only then [] else l), s') /\
-             num_qubits s' = num_qubits s + total_qubits l /\ num_clbits s' = num_clbits s + total_clbits l.
+             num_qubits s' = num_qubits s + total_qubits l /\ num_clbits s' = num_clbits s + total_clbits l /\
+             Dstep s s' (evs_of l).
 Proof.
   induction l as [|stm l IH]; intros env s Hf T Hw; cbn [concatMM].
-  - exists s. split; [destruct check_only; reflexivity|]. cbn. split; lia.
+  - exists s. split; [destruct check_only; reflexivity|]. cbn. split; [lia|]. split; [lia|apply Dstep_same; reflexivity].
   - cbn [wf_flat] in Hw. destruct (top_step env stm) as [env'|] eqn:Es; [|discriminate].
     unfold ldepth in Hf. cbn [fold_right] in Hf. fold (ldepth l) in Hf.
-    destruct (top_fix check_only fuel stm env env' s) as (s1 & E1 & T1 & Nq1 & Nc1); [lia|exact T|exact Es|].
-    destruct (IH env' s1) as (s2 & E2 & Nq2 & Nc2); [lia|exact T1|exact Hw|].
+    destruct (top_fix check_only fuel stm env env' s) as (s1 & E1 & T1 & Nq1 & Nc1 & S1); [lia|exact T|exact Es|].
+    destruct (IH env' s1) as (s2 & E2 & Nq2 & Nc2 & S2); [lia|exact T1|exact Hw|].
     rewrite (bind_eq _ _ s _ s1 E1), (bind_eq _ _ s1 _ s2 E2). exists s2.
-    split; [unfold ret; destruct check_only; reflexivity|]. unfold total_qubits, total_clbits in *. cbn [fold_right]. split; lia.
+    split; [unfold ret; destruct check_only; reflexivity|]. unfold total_qubits, total_clbits in *. cbn [fold_right].
+    split; [lia|]. split; [lia|]. unfold evs_of. cbn [flat_map]. eapply Dstep_trans; eauto.
 Qed.
 
 (* a global phase of a well-formed flat program has no operands: finalize leaves the program as it is *)
@@ -994,14 +1164,21 @@ Qed.
 Theorem wf_flat_is_accepted_and_a_fixpoint fuel p :
   wf_flat env0 p = true -> (ldepth p < fuel)%nat ->
   (exists o, run_visit false true [] fuel p = Ok o /\
-             num_qubits (o_state o) = total_qubits p /\ num_clbits (o_state o) = total_clbits p) /\
+             num_qubits (o_state o) = total_qubits p /\ num_clbits (o_state o) = total_clbits p /\
+             forall r, dof (o_state o) r = depth_after rsrc_eqb (evs_of p) r) /\
   (exists o, run_visit false false [] fuel p = Ok o /\ o_stmts o = p /\
-             num_qubits (o_state o) = total_qubits p /\ num_clbits (o_state o) = total_clbits p).
+             num_qubits (o_state o) = total_qubits p /\ num_clbits (o_state o) = total_clbits p /\
+             forall r, dof (o_state o) r = depth_after rsrc_eqb (evs_of p) r).
 Proof.
   intros Hw Hf. unfold run_visit. cbn [andb].
-  destruct (program_fix true fuel p env0 init_st Hf Top_init Hw) as (s1 & E1 & Nq1 & Nc1).
-  destruct (program_fix false fuel p env0 init_st Hf Top_init Hw) as (s2 & E2 & Nq2 & Nc2).
+  destruct (program_fix true fuel p env0 init_st Hf Top_init Hw) as (s1 & E1 & Nq1 & Nc1 & S1).
+  destruct (program_fix false fuel p env0 init_st Hf Top_init Hw) as (s2 & E2 & Nq2 & Nc2 & S2).
   rewrite E1, E2. cbn in Nq1, Nc1, Nq2, Nc2.
-  split; [eexists; split; [reflexivity|cbn [o_state]; split; assumption]|].
-  eexists. split; [reflexivity|]. cbn [o_stmts o_state]. split; [eapply wf_flat_finalize; eauto|split; assumption].
+  assert (N0 : nonneg init_st) by (intros r; destruct r as [[|] b]; cbn; lia).
+  assert (D0 : forall evs r, run_evs (dof init_st) evs r = depth_after rsrc_eqb evs r).
+  { intros evs r. unfold depth_after. apply run_evs_ext. intros [[|] b]; reflexivity. }
+  split; [eexists; split; [reflexivity|cbn [o_state]; split; [assumption|split; [assumption|]]]|].
+  - intros r. rewrite (S1 N0 r). apply D0.
+  - eexists. split; [reflexivity|]. cbn [o_stmts o_state]. split; [eapply wf_flat_finalize; eauto|].
+    split; [assumption|split; [assumption|]]. intros r. rewrite (S2 N0 r). apply D0.
 Qed.
